@@ -123,6 +123,22 @@ mut("C17", "setcurrent_same_system_double_register_notifies_twice", USM, "      
 mut("C17", "removecategory_notifies_before_delete_and_on_missing", US, "        try:\n            del self._units_mapping[category]\n            self.on_default_unit(category, None)\n        except KeyError:", "        try:\n            self.on_default_unit(category, None)\n            del self._units_mapping[category]\n        except KeyError:")
 mut("C17", "template_rejected_after_assignment", USM, "        if invalid_unit_systems:\n            # At least one of the existing unit system is not valid for this template. Notify that\n            # the template is invalid\n            raise InvalidTemplateError(invalid_unit_systems)\n\n        # NOTE: 'tr' for the caption (Unit system template) was removed.\n        self._unit_system_template = self._default_unit_system_class(\n            \"template\", \"Unit system template\", units_mapping, True\n        )", "        previous = self._unit_system_template\n        self._unit_system_template = self._default_unit_system_class(\n            \"template\", \"Unit system template\", units_mapping, True\n        )\n        if invalid_unit_systems:\n            raise InvalidTemplateError(invalid_unit_systems)")
 
+# ---- mutants that are invisible unless an operation is cut short (F7 interrupt / F2 peer exception)
+mut("C13", "convert_list_in_place_then_restore", UD, """            if isinstance(value, tuple):
+                return tuple(values_gen)
+            else:
+                return list(values_gen)
+""", """            if isinstance(value, tuple):
+                return tuple(values_gen)
+            else:
+                original = value[:]
+                for index, v in enumerate(original):
+                    value[index] = frombase(tobase(v))
+                result = value[:]
+                value[:] = original
+                return result
+""")
+
 
 def run_one(prop, name, file, old, new, runs, suite):
     d = tempfile.mkdtemp(prefix="barril-mut-", dir="/dev/shm")
